@@ -162,6 +162,7 @@ fn main() {
     let stdout = io::stdout();
     let mut out = io::BufWriter::new(stdout.lock());
     let mut slots: HashMap<String, Box<dyn Dyn>> = HashMap::new();
+    let mut last: HashMap<String, Vec<f64>> = HashMap::new();
     for line in stdin.lock().lines() {
         let line = line.unwrap();
         let w: Vec<&str> = line.split_whitespace().collect();
@@ -190,13 +191,23 @@ fn main() {
                 let x = pf(w[2]);
                 let s = slots.get_mut(w[1]).expect("slot");
                 match catch_unwind(AssertUnwindSafe(|| s.next_f(x))) {
-                    Ok(Some(v)) => fmt_out(&v), Ok(None) => "unsupported".into(), Err(_) => "panic".into(),
+                    Ok(Some(v)) => { let r = fmt_out(&v); last.insert(w[1].to_string(), v); r }, Ok(None) => "unsupported".into(), Err(_) => "panic".into(),
+                }
+            }
+            "nextfrom" => {
+                // nextfrom <dst> <src> <k>: feed dst with output component k of the last output of src
+                let x = match last.get(w[2]) { Some(v) => v[w[3].parse::<usize>().unwrap()], None => f64::NAN };
+                match slots.get_mut(w[1]) {
+                    None => "noslot".into(),
+                    Some(s) => match catch_unwind(AssertUnwindSafe(|| s.next_f(x))) {
+                        Ok(Some(v)) => { let r = fmt_out(&v); last.insert(w[1].to_string(), v); r }, Ok(None) => "unsupported".into(), Err(_) => "panic".into(),
+                    }
                 }
             }
             "bar" => {
                 let b = Bar { o: pf(w[2]), h: pf(w[3]), l: pf(w[4]), c: pf(w[5]), v: pf(w[6]) };
                 let s = slots.get_mut(w[1]).expect("slot");
-                match catch_unwind(AssertUnwindSafe(|| s.next_bar(&b))) { Ok(v) => fmt_out(&v), Err(_) => "panic".into() }
+                match catch_unwind(AssertUnwindSafe(|| s.next_bar(&b))) { Ok(v) => { let r = fmt_out(&v); last.insert(w[1].to_string(), v); r }, Err(_) => "panic".into() }
             }
             "dibar" => {
                 let r = DataItem::builder().open(pf(w[2])).high(pf(w[3])).low(pf(w[4])).close(pf(w[5])).volume(pf(w[6])).build();
